@@ -163,9 +163,12 @@ theorem name_unassigned (t : UInt16) (h : t.toNat = 20 ∨ 40 ≤ t.toNat) : avp
   · obtain ⟨n, hn⟩ : ∃ n, t.toNat = n + 40 := ⟨t.toNat - 40, by omega⟩
     rw [hn]; rfl
 
-/-! Rendering is total: `display` is a total Lean function (no fuel, no partiality), one fixed phrase per
-    variant with the payload or the AVP name spliced in.  That the text is never empty is checked on the
-    implementation for every variant and payload by the `render` stream (a test, labelled as a test). -/
+/-- Rendering is total (`display` is a total function: no fuel, no partiality, one fixed phrase per variant
+    with the payload or the AVP name spliced in) and the text is never empty, for every variant and payload. -/
+theorem render_nonempty (e : DErr) : display e ≠ "" := by
+  cases e <;> first
+    | decide
+    | (intro h; unfold display at h; simp only [String.append_eq_empty_iff] at h; exact absurd h.1.1 (by decide))
 
 /-! non-vacuity -/
 example : display (.incompleteAVP 12) = "Incomplete AVP (Q931CauseCode)" := by decide
